@@ -221,6 +221,9 @@ def run_catalogue():
         # it was written against: e.g. a lost out-argument planted for C02 is C01's and C04's subject)
         caught = [m.group(1) for c in meta.get('caught_by', []) for m in [re.match(r'^(?:missed[^;]*; )?(C\d\d)\b', c)] if m]
         caught = [meta['property']] if (meta['property'] in caught or not caught) else caught[:1]
+        if meta.get('missed'):
+            print(f'skip seeded-{sid}: recorded as a known miss ({meta.get("why_missed", "")[:120]}...)', flush=True)
+            continue
         items.append(('patch', 'seeded-' + sid, caught, os.path.join(os.path.dirname(meta_path), 'patch.diff')))
     for meta_path in sorted(glob.glob(os.path.join(engine.VERIF, 'seeded', 'refactors', '*', 'meta.json'))):
         sid = os.path.basename(os.path.dirname(meta_path))
